@@ -1,4 +1,5 @@
 import GrinVerif.Lemmas.ChainBisim
+import GrinVerif.Lemmas.ChainExampleFacts
 /-! # C06 — rejected or losing-fork input leaves best-chain state untouched
 (theorems on `Model/Chain.lean`; `KnownFull`, `hdrUpdate` in `Lemmas/ChainStep.lean`, `StoreInv`
 in `Lemmas/ChainValid.lean`, `CoreEq`, `obsBest` in `Lemmas/ChainBisim.lean`).
@@ -143,4 +144,49 @@ theorem reject_then_step (p : Params) (n : Node) (r b : Blk) (e : Err)
   exact same_core_same_step p _ n b hc (by rw [blk_congr hd.1]; exact hb)
     ((parts_storeInv p).toPreserved.single n r hr hi) hi hp
 
+/-! ## non-vacuity: the hypotheses hold on the concrete tree of `Lemmas/ChainExamples.lean`
+(0 ── 1 ── 3 ── 4, sibling 2 of 1, invalid child 9 of 1; 3 spends the genesis output 100 and
+4 re-creates that commitment) -/
+section Examples
+open GV.Chain.Ex
+
+-- `reject_state`: block 9 (spends a never-created output) is rejected after its header was
+-- remembered; the node differs from the old one exactly in `headers` / `hhead`
+example : (processBlockSingle P (run P N [.block B1]) B9).2 = .err "AlreadySpent" := by decide
+example : (processBlockSingle P (run P N [.block B1]) B9).1 =
+    hdrUpdate (run P N [.block B1]) B9 := by
+  obtain ⟨n1, h1, h2⟩ := reject_state P (run P N [.block B1]) B9 "AlreadySpent" (by decide)
+  rcases h2 with h2 | ⟨_, h2⟩
+  · rcases h1 with h1 | ⟨_, _, h1⟩
+    · exfalso
+      have : 9 ∈ (processBlockSingle P (run P N [.block B1]) B9).1.headers := by decide
+      rw [h2, h1] at this
+      revert this; decide
+    · rw [h2, h1]
+  · exact absurd h2 (by decide)
+
+-- `same_core_same_step`: a node that remembered the header of the rejected 9 and its twin that
+-- never saw it process block 3 alike
+example :
+    obsBest P (processBlockSingle P (run P N [.block B1, .block B9]) B3).1 =
+    obsBest P (processBlockSingle P (run P N [.block B1]) B3).1 :=
+  (same_core_same_step P (run P N [.block B1, .block B9]) (run P N [.block B1]) B3
+    ⟨rfl, rfl, by decide, by decide⟩ rfl
+    (run_preserved (preserved_inv P) N _ (by
+      intro e he
+      simp only [List.mem_cons, List.not_mem_nil, or_false] at he
+      rcases he with rfl | rfl <;> rfl) (ex_fresh.inv P)).2
+    (run_preserved (preserved_inv P) N _ (by
+      intro e he
+      simp only [List.mem_cons, List.not_mem_nil, or_false] at he
+      rcases he with rfl <;> rfl) (ex_fresh.inv P)).2
+    (by
+      intro par hpar
+      have : par = 1 := by
+        have h : B3.parent = some 1 := rfl
+        rw [h] at hpar; exact (Option.some.inj hpar).symm
+      subst this
+      decide)).2
+
+end Examples
 end GV.Props.C06
